@@ -393,6 +393,15 @@ class Model:
             ann["expect_points"] = {n: [list(p) for p in pts] for n, pts in self.pos.items()}
             ann["deleted"] = list(self.deleted)
             ann["had_block"] = had_block
+        elif op == "translate_op":
+            # the user moves one whole operation (only ones without curved edges: their recipe stays as it is);
+            # on an assembled mesh that is an edit like any other: clear before the next write
+            n = st["target"]
+            if n not in self.recipes or self.recipes[n]["edges"] or self.pending or getattr(self, "crashed_backport", False) or n in self.uncertain:
+                raise IllFormed("translate_op")
+            self.pos[n] = [[p[k] + st["d"][k] for k in range(3)] for p in self.pos[n]]
+            if self.assembled and n in self.added:
+                self.stale_reasons.add("attr")
         elif op == "side_write":
             # the same entities, as they stand, are added to a second Mesh object (nothing else is declared
             # there) and written: what the first Mesh did to itself (delete, merge, patch changes) stays there
@@ -571,6 +580,8 @@ def gen_history(seed: int, faults: str) -> Dict[str, Any]:
         cand.append(("clear", 2))
         if m.added and not m.pending and not m.uncertain and not getattr(m, "crashed_backport", False):
             cand.append(("side_write", 1.2))
+        if not m.pending and (victim is None or grade_fixed) and transient is None:
+            cand.append(("translate_op", 0.8))
         if m.used_patch_names():
             cand.append(("modify_patch", 2))
         cand.append(("default_patch", 1))
@@ -633,6 +644,11 @@ def gen_history(seed: int, faults: str) -> Dict[str, Any]:
             do({"op": "clear"})
         elif kind == "side_write":
             do({"op": "side_write"})
+        elif kind == "translate_op":
+            free = [x for x in m.recipes if not m.recipes[x]["edges"] and x not in m.uncertain]
+            if not free:
+                continue
+            do({"op": "translate_op", "target": rs.pick(free), "d": [round(rs.uniform(-0.3, 0.3), 4) for _ in range(3)]})
         elif kind == "modify_patch":
             st = {"op": "modify_patch", "name": rs.pick(m.used_patch_names()), "kind": rs.pick(KINDS), "settings": None}
             if rs.chance(0.5):
